@@ -177,6 +177,7 @@ def _gen_world(r):
     w["meta_claim"] = r.choice([None] * 9 + ["fewer", "more"]) if kind != "split" else None
     # a STALE compressed copy (of an earlier transfer: same shape, other content) sits next to the uncompressed original:
     # whatever the converter does with it, the original handed in must stay recoverable
+    w["extremes"] = r.random() < 0.3      # corners of int16 and runs of zeros in the content
     w["stale_cbin"] = kind in ("NP21", "NP24", "NP24_1sh") and w["form"] == "bin" and w["meta_claim"] is None and r.random() < 0.15
     return w
 
@@ -234,7 +235,7 @@ class World:
         self.fs = world.meta_fs(fixture)
         self.nap = w["nap"]
         self.nc = self.nap + 1
-        self.O = world.make_data(w["data_seed"], w["ns"], w["nap"])
+        self.O = world.make_data(w["data_seed"], w["ns"], w["nap"], extremes=bool(w.get("extremes")))
         self.pdir = self.root / LABEL
         claimed = None
         if w.get("meta_claim") == "fewer":
